@@ -56,16 +56,13 @@ def _dangling(text):
 def check_pair(name, on, off):
     """on/off: outputs with the option on / off (for the size option: non-default / default).  -> problem or None"""
     if name == "filter_unused_linenum":
-        a, b = strip_labels(on), strip_labels(off)
+        # lines that consist of nothing but a label (a source line that is only a number) become empty lines when the
+        # label goes, and white space at the very end of a procedure is stripped by the bank: empty lines do not count
+        a = [ln for ln in strip_labels(on) if ln.strip()]
+        b = [ln for ln in strip_labels(off) if ln.strip()]
         if a != b:
             d = next(((x, y) for x, y in zip(a, b) if x != y), (len(a), len(b)))
             return {"first_difference": d}
-        # and filtering may only remove labels
-        la = [ln for ln in on.split("\n")]
-        lb = [ln for ln in off.split("\n")]
-        for x, y in zip(la, lb):
-            if x != y and not (_LABEL.sub("", y, count=1) == x):
-                return {"line_on": x, "line_off": y}
         # ... and only unused ones: a label still jumped to in the filtered text must still be there
         dang = _dangling(on)
         if dang:
@@ -123,10 +120,23 @@ def check_pair(name, on, off):
     raise ValueError(name)
 
 
+ODD_TEXTS = ['10 F$="A\x0cB":PRINT F$\n20 REM X\x85Y\n30 DATA P\u2028Q,R\x0bS\n40 READ A$,B$\n',
+             '10 PRINT "L\x1cM";"N\x1dO\x1eP"\n20 \' T\u2029U\n',
+             '10 INPUT "WHO\x0c";N$\n20 A$="\x0c"+CHR$(12)\n30 IF A$="\x85" THEN 10\n']
+
+
 def program_text(case):
+    if case.get("text") is not None:
+        return case["text"]
     if case.get("example"):
         return open(os.path.join(boot.REPO, case["example"])).read()
     rng = random.Random(case["seed"])
+    if case.get("peg"):
+        from coco.b09 import compiler
+        from ..gen import peggen
+
+        gr = getattr(compiler.grammar, "_real", compiler.grammar)
+        return peggen.PegSampler(gr, rng, max_depth=rng.choice([14, 18, 22])).gen()
     g = progs.ProgGen(rng, max_depth=1, handlers=True)
     return render(g.program(rng.randint(2, 9)))
 
@@ -295,7 +305,8 @@ _HOOKS = []
 def cases(tier, seed):
     n = 120 if tier == "quick" else 8000
     for i in range(n):
-        yield {"kind": "opts", "seed": seed * 7368787 + i, "sample": i % 60 == 0, "alt_size": [80, 16, 255, 33, 1][i % 5]}
+        yield {"kind": "opts", "seed": seed * 7368787 + i, "sample": i % 60 == 0, "alt_size": [80, 16, 255, 33, 1][i % 5],
+               "peg": i % 4 == 3}
     ex = sorted(glob.glob(os.path.join(boot.REPO, "examples", "*", "*.bas")))
     for p in ex if tier == "thorough" else ex[:6]:
         yield {"kind": "opts", "example": os.path.relpath(p, boot.REPO), "seed": 0}
@@ -309,6 +320,11 @@ def cases(tier, seed):
              ["--default-string-storage=48", "-z"], ["-z", "--default-string-storage=20", "-s70"], ["-c", "-D", "-s16"]]
     stems = ["prog", "my-prog", "A_1", "x9"]
     k = 0
+    for i, t in enumerate(ODD_TEXTS):
+        # characters that line-splitting routines (not the tool's grammar) take for line ends, inside literals / comments / DATA
+        for fs in ([], ["-l", "-z"], ["-D", "-s80"]):
+            yield {"kind": "cli", "seed": i, "flags": fs, "stem": "odd%d" % i, "text": t}
+        yield {"kind": "opts", "seed": i, "text": t}
     for fs in flagsets + extra:
         for rep in range(1 if tier == "quick" else 8):
             k += 1
